@@ -4751,6 +4751,9 @@ class ParseCtx:
 
     def _convert_char_const(self, char_const: str):
         if len(char_const) == 3:
+            if ord(char_const[1]) > 0xff:
+                # (as in strings and regexes: a literal spells bytes)
+                raise IllegalParseTree("Character constant " + char_const + " is outside the byte range (use a number)")
             return char_const[1]
         else:
             escapes = {
